@@ -34,6 +34,7 @@ def judgeAll (env : Env) (libs : List (String × Bytes)) (tr : List (Op × Obs))
     ("C14", mon14.run env mon14.init 0 View.empty vt),
     ("C17", mon17.run env mon17.init 0 View.empty vt),
     ("C18", mon18.run env mon18.init 0 View.empty vt),
+    ("C18", mon18s.run env mon18s.init 0 View.empty vt),
     ("C19", mon19.run env mon19.init 0 View.empty vt),
     ("C20", mon20.run env mon20.init 0 View.empty vt) ]
 
